@@ -41,7 +41,7 @@ var crashArgs = []string{
 
 var crashHand = []string{
 	"(+ 1 (cond true (begin) 2))", "(list 1 ^~@(list) 3)", "(and)", "(or)", "{\"a\" \"\\q\"}",
-	"(read (str 2.0))", "(read \"2\")", "(read \"\")", "(read \"(\")", "(+ 1 (read \"\"))",
+	"(read (str 2.0))", "(read \"2\")", "(read \"\")", "(read \"(\")", "(+ 1 (read \"\"))", "(struct Car [(field Id: int64 e:0)]) (def w (Car Id: 1)) {w.Id = [(list 1)]}",
 	"(def x (read \"\")) x", "(cond (read \"\") 1 2)", "(str (read \"\"))", "(msgpack-map 1)",
 	"(msgpack-map)", "(msgpack-map a)", "(let)", "(cond)", "(for)", "(fn)", "(defn)", "(quote)",
 	"(begin)", "(newScope)", "(return)", "(+ 1 (begin))", "(+ 1 (newScope))", "(+ 1 (quote))",
@@ -613,7 +613,8 @@ var crashPairTemplates = []string{"(def a %1) (def a %2)", "(def a %1) (set a %2
 	"(def a [%1]) (aset a 0 %2) a", "(def h (hash k: %1)) (hset h k: %2) h", "{a = %1; a = %2}", "(def a %1) (== a %2)", "(def a %1) (< a %2)",
 	"(let [a %1] (def a %2))", "((fn [a] (def a %2)) %1)", "(def a %1) (json a)", "(def a %1) (msgpack a)", "(def a %1) (type? a) (str a) (copy a)",
 	"(def a (list %1 %2)) (str a)", "(hash %1 %2)", "(def h (hash)) (hset h %1 %2) (hget h %1)", "(append [%1] %2)", "(concat %1 %2)", "(cons %1 %2)",
-	"(mdef a b (list %1 %2)) [a b]", "{a, b = %1, %2}", "(aget %1 %2)", "(hget %1 %2)", "(%1 %2)", "(apply %1 %2)", "(map %1 %2)", "(slice %1 0 %2)"}
+	"(mdef a b (list %1 %2)) [a b]", "(struct S [(field f: int64 e:0) (field g: ([]string) e:1) (field p: (* S) e:2)]) (def w (S f: 1)) {w.f = %1} {w.g = %2} w",
+	"(struct S [(field f: int64 e:0) (field p: (* S) e:1)]) (def w (S f: 1)) (hset w f: %1) {w.p = %2} (str w)", "{a, b = %1, %2}", "(aget %1 %2)", "(hget %1 %2)", "(%1 %2)", "(apply %1 %2)", "(map %1 %2)", "(slice %1 0 %2)"}
 
 func crashGenPairs(g *Gen) {
 	r := g.Rng
@@ -661,7 +662,7 @@ func crashGenInfix(g *Gen) {
 	}
 	samples := 4000
 	if g.Thorough() {
-		samples = 80000
+		samples = 40000
 	}
 	for k := 0; k < samples; k++ {
 		l := 3 + r.Intn(6)
